@@ -95,7 +95,7 @@ def check_sedov(case):
 
 @st.composite
 def guderley_case(draw):
-    return dict(solver=cat.GUDERLEY, params=draw(cat.guderley_params()), t=draw(st.sampled_from([0.3, 0.6, 0.9, 1.3])))
+    return dict(solver=cat.GUDERLEY, params=draw(cat.guderley_params()), t=draw(st.sampled_from([0.3, 0.6, 0.9, 1.3, 1.1, 0.85])))
 
 
 def check_guderley(case):
@@ -106,6 +106,25 @@ def check_guderley(case):
     rho = np.asarray(sol['density'], float)
     o.true('density never below the initial density (compressive flow)', bool(np.all(rho >= case['params']['rho0'] * (1 - 1e-9)) or case['t'] > 0.75), rho_min=float(rho.min()))
     o.label('gamma%g' % case['params']['gamma'], 't=%g' % case['t'])
+    # the shock (converging for t < 0.75, reflected afterwards) is compressive: density, pressure and entropy p / rho^gamma rise
+    # from the side the gas comes from (inside before the collapse, outside after it) to the other
+    s = cat.make_solver(case)
+    g = case['params']['gamma']
+    a, b = 0.1, 2.5          # (the steep but smooth profile next to the origin is left out of the search for the jump)
+    for n_ in (121, 41, 41):
+        xs = np.linspace(a, b, n_)
+        f = cat.quiet(s, xs, case['t'])
+        r_, p_ = np.asarray(f['density'], float), np.asarray(f['pressure'], float)
+        j = int(np.argmax(np.abs(np.diff(r_)) / (r_[:-1] + r_[1:]) + np.abs(np.diff(p_)) / (p_[:-1] + p_[1:] + 1e-300)))
+        a, b = xs[j], xs[j + 1]
+    if abs(r_[j + 1] - r_[j]) / (r_[j + 1] + r_[j]) > 0.02:          # a jump was isolated (a smooth steep profile narrows to nothing)
+        inner, outer = (r_[j], p_[j]), (r_[j + 1], p_[j + 1])
+        pre, post = (inner, outer) if case['t'] < 0.75 else (outer, inner)
+        which = 'converging' if case['t'] < 0.75 else 'reflected'
+        o.true('shock compressive: density rises across the %s shock' % which, post[0] > pre[0], regime=which, pre=pre[0], post=post[0])
+        o.true('shock compressive: pressure rises across the %s shock' % which, post[1] > pre[1], regime=which, pre=pre[1], post=post[1])
+        o.true('entropy p / rho^gamma does not fall across the %s shock' % which, post[1] / post[0] ** g >= pre[1] / pre[0] ** g * (1 - 1e-9), regime=which)
+        o.label(which + '-shock-located')
     o.nontrivial = True
     return o
 
@@ -395,7 +414,7 @@ def r_gen(draw):
 OBLIGATIONS = [
     Obligation('noh-admissible', cat.noh_case(n_min=1, n_max=1), check_noh, quick=200, thorough=8000),
     Obligation('sedov-admissible', sedov_case(), check_sedov, quick=16, thorough=300, min_per_shard=1),
-    Obligation('guderley-admissible', guderley_case(), check_guderley, quick=8, thorough=32, min_per_shard=1),
+    Obligation('guderley-admissible', guderley_case(), check_guderley, quick=12, thorough=48, min_per_shard=1),
     Obligation('igeos-admissible', r_ig(), check_riemann, quick=300, thorough=12000),
     Obligation('geneos-admissible', r_gen(), check_riemann, quick=24, thorough=400, min_per_shard=1, expected_exc=(ValueError,)),
     Obligation('ehep-admissible', ehep_case(), check_ehep, quick=100, thorough=3000),
